@@ -302,10 +302,18 @@ def _only_removed(c, S, S0):
                   node_attrs_same_on(c, S, S0), edge_attrs_same_on(c, S, S0))
 
 
+def _untouched_edges_kept(c, S, S0, D):
+    """Edges none of whose members is in D are still there with the same members."""
+    return c.forall(["id"], lambda f: z3.Implies(z3.And(sel(S0.ek, f), c.inter(sel(S0.E, f), D) == c.EMPTY),
+                                                 z3.And(sel(S.ek, f), sel(S.E, f) == sel(S0.E, f))))
+
+
 def _rnf_inv(c, A, K):
     S, S0 = K.S, A.S0
-    return z3.And(UInv(c, S), Fresh(c, S), _only_removed(c, S, S0),
-                  c.forall(["id"], lambda n: z3.Implies(sel(K.done, n), z3.Not(sel(S.nk, n)))))
+    return z3.And(UInv(c, S), Fresh(c, S), _only_removed(c, S, S0), UInv(c, S0),
+                  c.forall(["id"], lambda n: z3.Implies(sel(K.done, n), z3.Not(sel(S.nk, n)))),
+                  c.forall(["id"], lambda n: z3.Implies(z3.And(sel(S0.nk, n), z3.Not(sel(K.done, n))), sel(S.nk, n))),
+                  _untouched_edges_kept(c, S, S0, K.done))
 
 
 def frozen_exc(s):
@@ -319,13 +327,22 @@ s.loop("for n in nodes", _rnf_inv)
 s.ens_all("only-removes", ("C05",), lambda c, A, R: _only_removed(c, R.S, A.S0))
 s.ens("listed-nodes-gone", ("C05",), lambda c, A, R: c.forall(["id"], lambda n: z3.Implies(
     z3.And(sel(c.content(A.nodes.term), n), z3.Not(c.one_shot(A.nodes.term))), z3.Not(sel(R.S.nk, n)))))
+s.ens("node-set", ("C05", "C19"), lambda c, A, R: z3.Implies(z3.Not(c.one_shot(A.nodes.term)), R.S.nk == c.diff(A.S0.nk, c.content(A.nodes.term))))
+s.ens("untouched-edges-kept", ("C05", "C19"), lambda c, A, R: z3.Implies(
+    z3.Not(c.one_shot(A.nodes.term)), _untouched_edges_kept(c, R.S, A.S0, c.content(A.nodes.term))))
 s.exc("TypeError")
 frozen_exc(s)
 
 
+def _ref_exact(c, S, S0, D):
+    """Exactly the edges in D are gone and the others keep their members (memberships then follow from UInv)."""
+    return z3.And(c.forall(["id"], lambda f: sel(S.ek, f) == z3.And(sel(S0.ek, f), z3.Not(sel(D, f)))),
+                  c.forall(["id"], lambda f: z3.Implies(sel(S.ek, f), sel(S.E, f) == sel(S0.E, f))))
+
+
 def _ref_inv(c, A, K):
     S, S0 = K.S, A.S0
-    return z3.And(UInv(c, S), Fresh(c, S), _only_removed(c, S, S0), S.nk == S0.nk)
+    return z3.And(UInv(c, S), Fresh(c, S), _only_removed(c, S, S0), S.nk == S0.nk, _ref_exact(c, S, S0, K.done))
 
 
 def _ref_inner(c, A, K):
@@ -337,13 +354,14 @@ def _ref_inner(c, A, K):
         c.forall(["id"], lambda n: z3.Implies(sel(S.E, e, n), sel(S.nk, n))),
         K.content == sel(S.E, e), sel(S.ek, e),
         S.nk == S.nak, S.ek == S.eak, z3.Not(sel(S.nk, c.NONE)), z3.Not(sel(S.ek, c.NONE)),
-        Fresh(c, S), _only_removed(c, S, S0), S.nk == S0.nk)
+        Fresh(c, S), _only_removed(c, S, S0), S.nk == S0.nk, _ref_exact(c, S, S0, K.outer.done))
 
 
 s = std(contract(H + "remove_edges_from", [("self", "net:H"), ("ebunch", "val")]))
 s.loop("for idx in ebunch", _ref_inv)
 s.loop("for node in self._edge[idx].copy()", _ref_inner)
 s.ens_all("only-removes", ("C05",), lambda c, A, R: z3.And(_only_removed(c, R.S, A.S0), R.S.nk == A.S0.nk))
+s.ens("effect", ("C05", "C19"), lambda c, A, R: z3.Implies(z3.Not(c.one_shot(A.ebunch.term)), _ref_exact(c, R.S, A.S0, c.content(A.ebunch.term))))
 s.exc("TypeError")
 s.exc("IDNotFound")
 
@@ -408,13 +426,18 @@ s.exc("TypeError", "state-unchanged", ("C05",), lambda c, A, R: same_state(c, A.
 
 # ------------------------------------------------------------------ update
 s = std(contract(H + "update", [("self", "net:H"), ("edges", "val", None), ("nodes", "val", None)]))
+s.variants = [{"self": "net:H"}, {"self": "net:SC"}]
+# on a simplicial complex the inherited update() dispatches to SimplicialComplex.add_edges_from, which needs (and keeps) the
+# simplicial invariants
+from pyvc.spec import SClosed, SDupFree, SNonEmpty  # noqa: E402
+_sc_inv = lambda c, S: z3.And(SNonEmpty(c, S), SDupFree(c, S))
+s.req("SLite-on-SC", lambda c, A: _sc_inv(c, A.S0) if A.S0.kind == "SC" else z3.BoolVal(True), ("C03",))
+s.req("Closed-on-SC", lambda c, A: SClosed(c, A.S0) if A.S0.kind == "SC" else z3.BoolVal(True), ("C03",))
 s.ens_all("existing-edges-kept", ("C04",), lambda c, A, R: edges_kept(c, A.S0, R.S))
-s.exc("XGIError")
-s.exc("TypeError")
-s.exc("ValueError")
-s.exc("IndexError")
-s.exc("KeyError")
-s.exc("AttributeError")
+s.ens_all("SLite-on-SC", ("C03",), lambda c, A, R: _sc_inv(c, R.S) if A.S0.kind == "SC" else z3.BoolVal(True))
+s.ens("Closed-on-SC", ("C03",), lambda c, A, R: SClosed(c, R.S) if A.S0.kind == "SC" else z3.BoolVal(True))
+s.ens_all("frozen-unchanged", ("C18",), lambda c, A, R: z3.Implies(A.S0.frozen, same_tables(c, A.S0, R.S)))
+s.raises_any = True
 
 
 # ------------------------------------------------------------------ add_edges_from
@@ -462,3 +485,138 @@ s.ens_all("existing-edges-kept", ("C04",), lambda c, A, R: edges_kept(c, A.S0, R
 s.ens_all("nodes-grow", ("C05",), lambda c, A, R: _nodes_grow(c, R.S, A.S0))
 for e_ in ("XGIError", "TypeError", "ValueError", "IndexError", "UnboundLocalError"):
     s.exc(e_)
+
+
+# ------------------------------------------------------------------ random_edge_shuffle
+def _res_common(c, A, K):
+    """Facts shared by the two membership loops of random_edge_shuffle (e1, e2 are the chosen edge
+    ids; B = the nodes in both, already removed from the two stored member sets)."""
+    S, S0 = K.S, A.S0
+    e1, e2 = K.ex.tid(K.L("e_id1")), K.ex.tid(K.L("e_id2"))
+    B = K.ex.tset(K.L("nodes_both"))
+    X1 = K.ex.tset(K.L("e1_new"))
+    X2 = K.ex.tset(K.L("e2_new"))
+    A1, A2 = c.diff(sel(S0.E, e1), B), c.diff(sel(S0.E, e2), B)
+    return S, S0, e1, e2, B, X1, X2, A1, A2
+
+
+def _res_entry_facts(c, A, K):
+    S, S0, e1, e2, B, X1, X2, A1, A2 = _res_common(c, A, K)
+    U = c.union(A1, A2)
+    # e1 == e2 (the same id passed twice) degenerates: both member sets are emptied, nothing moves
+    return z3.And(
+        UInv(c, S0), Fresh(c, S0), sel(S0.ek, e1), sel(S0.ek, e2),
+        B == c.inter(sel(S0.E, e1), sel(S0.E, e2)),
+        c.subset(X1, U), X2 == c.diff(U, X1), c.card(X1) == c.card(A1),
+        S.nk == S0.nk, S.ek == S0.ek, attrs_same(c, S, S0), net_same(c, S, S0),
+        sel(S.E, e1) == A1, sel(S.E, e2) == A2,
+        c.forall(["id"], lambda f: z3.Implies(z3.And(sel(S0.ek, f), f != e1, f != e2), sel(S.E, f) == sel(S0.E, f))))
+
+
+def _res_loop1(c, A, K):
+    S, S0, e1, e2, B, X1, X2, A1, A2 = _res_common(c, A, K)
+    D = K.done
+    return [G("inv", ("C01", "C04", "C05"), z3.And(
+        _res_entry_facts(c, A, K), K.content == c.inter(X1, A2),
+        c.forall(["id"], lambda n: z3.Implies(sel(S.nk, n), sel(S.N, n) == z3.If(sel(D, n), c.add(c.rem(sel(S0.N, n), e2), e1), sel(S0.N, n))))))]
+
+
+def _res_loop2(c, A, K):
+    S, S0, e1, e2, B, X1, X2, A1, A2 = _res_common(c, A, K)
+    D = K.done
+    C1 = c.inter(X1, A2)
+    base = lambda n: z3.If(sel(C1, n), c.add(c.rem(sel(S0.N, n), e2), e1), sel(S0.N, n))
+    return [G("inv", ("C01", "C04", "C05"), z3.And(
+        _res_entry_facts(c, A, K), K.content == c.inter(X2, A1),
+        c.forall(["id"], lambda n: z3.Implies(sel(S.nk, n), sel(S.N, n) == z3.If(sel(D, n), c.add(c.rem(base(n), e1), e2), base(n))))))]
+
+
+def _res_effect(c, A, R):
+    S, S0 = R.S, A.S0
+    return z3.And(S.nk == S0.nk, S.ek == S0.ek, attrs_same(c, S, S0), net_same(c, S, S0),
+                  c.forall(["id"], lambda e: z3.Implies(sel(S.ek, e), c.card(sel(S.E, e)) == c.card(sel(S0.E, e)))))
+
+
+s = std(contract(H + "random_edge_shuffle", [("self", "net:H"), ("e_id1", "val", None), ("e_id2", "val", None)]))
+s.loop("for n_id in e1_new & e2", _res_loop1)
+s.loop("for n_id in e2_new & e1", _res_loop2)
+s.ens("ids-attrs-sizes-kept", ("C05",), _res_effect)
+s.timeout_ms = 60000
+s.exc("ValueError", "fewer-than-two-edges", ("C05",), lambda c, A, R: z3.And(c.card(A.S0.ek) < 2, same_state(c, A.S0, R.S)))
+s.exc("IDNotFound", "missing-edge", ("C05",), lambda c, A, R: same_state(c, A.S0, R.S))
+s.exc("TypeError", "unhashable-id", ("C05",), lambda c, A, R: same_state(c, A.S0, R.S))
+
+
+# ------------------------------------------------------------------ merge_duplicate_edges (value computed by abstracted local code)
+def _mde_loop(c, A, K):
+    S, S0 = K.S, A.S0
+    return [G("struct", ("C01",), UInv(c, S)), G("fresh", ("C01", "C04"), z3.And(Fresh(c, S), S.uid >= S0.uid)),
+            G("frame", ("C05", "C18"), z3.And(same_tables(c, S0, S), S.neth == S0.neth, S.netv == S0.netv))]
+
+
+s = std(contract(H + "merge_duplicate_edges", [("self", "net:H"), ("rename", "val", "first"), ("merge_rule", "val", "first"), ("multiplicity", "val", None)]))
+s.loop("for members, dup_ids in hashes.items()", _mde_loop)
+s.ens_all("nodes-and-node-attrs-kept", ("C05",), lambda c, A, R: z3.And(R.S.neth == A.S0.neth, R.S.netv == A.S0.netv, node_attrs_same_on(c, R.S, A.S0)))
+s.raises_any = True
+s.notes = "the grouping / renaming / attribute-merging value computation is abstracted (net-pure local code); only the frame, UInv and Fresh are proved, the value is covered by the bounded stand-in"
+from contracts.freeze import frozen_clauses  # noqa: E402
+frozen_clauses(s)
+
+
+s = std(contract(H + "add_weighted_edges_from", [("self", "net:H"), ("ebunch", "val"), ("weight", "val", "weight"), ("attr", "kwattr")]))
+s.ens_all("existing-edges-kept", ("C04",), lambda c, A, R: edges_kept(c, A.S0, R.S))
+s.raises_any = True
+frozen_clauses(s)
+
+
+# ------------------------------------------------------------------ in-place helpers (C01: "cleanup, duplicate merging, relabelling, largest-component restriction")
+UT = "xgi/utils/utilities.py::"
+CN = "xgi/algorithms/connected.py::"
+
+s = contract(CN + "largest_connected_hypergraph", [("H", "net:H"), ("in_place", "bool", False)])
+s.modifies = ["H"]
+s.req("UInv", lambda c, A: UInv(c, A.snap0["H"]), ("C01",))
+s.req("Fresh", lambda c, A: Fresh(c, A.snap0["H"]), ("C01", "C04"))
+s.req("in-place", lambda c, A: A.in_place.term, ("C01",))
+s.ens_all("UInv", ("C01",), lambda c, A, R: UInv(c, R.snap["H"]))
+s.ens_all("Fresh", ("C01", "C04"), lambda c, A, R: Fresh(c, R.snap["H"]))
+s.ens_all("only-removes", ("C05",), lambda c, A, R: _only_removed(c, R.snap["H"], A.snap0["H"]))
+s.ens_all("frozen-unchanged", ("C18",), lambda c, A, R: z3.Implies(A.snap0["H"].frozen, same_tables(c, A.snap0["H"], R.snap["H"])))
+s.raises_any = True
+s.notes = "in_place=True path; the component computation is abstracted (net-pure), the only write is remove_nodes_from"
+
+s = contract(UT + "convert_labels_to_integers", [("net", "net:H"), ("label_attribute", "val", "label"), ("in_place", "bool", False)])
+s.modifies = ["net"]
+s.req("UInv", lambda c, A: UInv(c, A.snap0["net"]), ("C01",))
+s.req("Fresh", lambda c, A: Fresh(c, A.snap0["net"]), ("C01", "C04"))
+s.req("in-place", lambda c, A: A.in_place.term, ("C01",))
+s.ens_all("UInv", ("C01",), lambda c, A, R: UInv(c, R.snap["net"]))
+s.ens_all("Fresh", ("C01", "C04"), lambda c, A, R: Fresh(c, R.snap["net"]))
+s.ens_all("frozen-unchanged", ("C18",), lambda c, A, R: z3.Implies(A.snap0["net"].frozen, same_tables(c, A.snap0["net"], R.snap["net"])))
+s.raises_any = True
+s.notes = "in_place=True path on an undirected hypergraph; the relabelling maps are abstracted, the writes are clear / add_nodes_from / set_*_attributes / add_edges_from"
+
+
+s = std(contract(H + "cleanup", [("self", "net:H"), ("isolates", "bool", False), ("singletons", "bool", False), ("multiedges", "bool", False),
+                                 ("connected", "bool", True), ("relabel", "bool", True), ("in_place", "bool", True)]))
+s.req("in-place", lambda c, A: A.in_place.term, ("C01",))
+s.raises_any = True
+s.ens_all("frozen-unchanged", ("C18",), lambda c, A, R: z3.Implies(A.S0.frozen, same_tables(c, A.S0, R.S)))
+
+
+
+def _no_singletons(c, S):
+    return c.forall(["id"], lambda e: z3.Implies(sel(S.ek, e), c.card(sel(S.E, e)) != 1))
+
+
+def _no_isolates(c, S):
+    return c.forall(["id"], lambda n: z3.Implies(sel(S.nk, n), sel(S.N, n) != c.EMPTY))
+
+
+_plain = lambda A: z3.And(z3.Not(A.connected.term), z3.Not(A.relabel.term))
+s.ens("no-singleton-edges-left", ("C19", "C05"), lambda c, A, R: z3.Implies(z3.And(_plain(A), z3.Not(A.singletons.term)), _no_singletons(c, R.S)))
+s.ens("no-isolated-nodes-left", ("C19", "C05"), lambda c, A, R: z3.Implies(z3.And(_plain(A), z3.Not(A.isolates.term)), _no_isolates(c, R.S)))
+s.notes = ("in_place=True path: UInv and Fresh follow from the contracts of the five in-place steps; with connected=False and relabel=False "
+           "the removal guarantees (no singleton edge / no isolated node left) are proved from the effect contracts of remove_edges_from and "
+           "remove_nodes_from and the assumed view accessors singletons() / isolates(); with connected / relabel the guarantees are covered by "
+           "the bounded stand-in only")
